@@ -21,6 +21,7 @@ import (
 	"strconv"
 	"strings"
 	"sync"
+	"time"
 
 	"verif/harness/lib"
 )
@@ -810,6 +811,7 @@ type c19SessResult struct {
 	Snap1    string
 	Snap2    string
 	Invalid  string   // the session itself did not evaluate (not a verdict)
+	Flaky    string   // a worker gave no usable reply (limit, could not start, died): run the session again alone
 	Order    []string // flavors in the order of the first snapshot
 	PkgOrder []string // user packages in the order of the first snapshot
 }
@@ -852,15 +854,57 @@ func (s *c19Session) ownerKind(name string) string {
 	return "builtin"
 }
 
+// c19RunSession runs a session; a session whose workers gave no usable reply is run again alone
+// (no other worker of this harness running) with the generous limit, twice if need be. Only what
+// the last run shows is a verdict: a worker that does not answer within c19WorkerLimitAlone while
+// it is the only one is a hang of the implementation (host-fault), a worker that dies again alone
+// is a crash of the implementation.
 func c19RunSession(dir string, sess *c19Session) (res c19SessResult) {
+	res = c19RunSessionLimit(dir, sess, c19WorkerLimit)
+	return
+}
+
+var c19AloneMu sync.Mutex
+
+func c19RunSessionAlone(dir string, sess *c19Session) (res c19SessResult) {
+	c19AloneMu.Lock()
+	defer c19AloneMu.Unlock()
+	for try := 0; try < 3; try++ {
+		res = c19RunSessionLimit(dir, sess, c19WorkerLimitAlone)
+		if res.Flaky == "" {
+			return
+		}
+	}
+	// still no usable reply when run alone with the generous limit: that is the implementation
+	if res.Aspect == "" {
+		res.Aspect, res.Detail, res.Observed, res.Expected = "host-fault", "no-reply", res.Flaky+" (three runs alone)", "the worker answers"
+		res.Invalid = ""
+	}
+	return
+}
+
+func c19RunSessionLimit(dir string, sess *c19Session, limit time.Duration) (res c19SessResult) {
 	res.Sess = sess
 	_ = os.RemoveAll(dir)
 	probes, owner := sess.probes()
 	forms := sess.forms()
-	r1, err := c19RunWorker(dir, &c19Req{Mode: "session", Forms: forms, Probes: probes, Snap: true})
+	flaky := func(err error) bool {
+		if f, ok := err.(*c19WorkerFlaky); ok {
+			res.Flaky = f.why
+			res.Invalid = "worker: " + f.why
+			return true
+		}
+		return false
+	}
+	r1, err := c19RunWorkerLimit(dir, &c19Req{Mode: "session", Forms: forms, Probes: probes, Snap: true}, limit)
 	if err != nil {
-		res.Invalid = "worker: " + err.Error()
+		if !flaky(err) {
+			res.Invalid = "worker: " + err.Error()
+		}
 		return
+	}
+	if r1.Died {
+		res.Flaky = r1.Panic
 	}
 	if r1.Panic != "" {
 		res.Aspect, res.Detail, res.Observed, res.Expected = "host-fault", "session", r1.Panic, "the session evaluates"
@@ -889,10 +933,15 @@ func c19RunSession(dir string, sess *c19Session) (res c19SessResult) {
 	for _, m := range c19PackageRe.FindAllStringSubmatch(r1.Snapshot, -1) {
 		res.PkgOrder = append(res.PkgOrder, strings.ToLower(m[1]))
 	}
-	r2, err := c19RunWorker(dir, &c19Req{Mode: "load", File: "snap1.lisp", Probes: probes, Snap: true})
+	r2, err := c19RunWorkerLimit(dir, &c19Req{Mode: "load", File: "snap1.lisp", Probes: probes, Snap: true}, limit)
 	if err != nil {
-		res.Invalid = "worker: " + err.Error()
+		if !flaky(err) {
+			res.Invalid = "worker: " + err.Error()
+		}
 		return
+	}
+	if r2.Died {
+		res.Flaky = r2.Panic
 	}
 	if r2.Panic != "" {
 		res.Aspect, res.Detail, res.Observed, res.Expected = "host-fault", "load", r2.Panic, "the snapshot loads"
@@ -905,7 +954,14 @@ func c19RunSession(dir string, sess *c19Session) (res c19SessResult) {
 		if r2.Load != nil {
 			res.Observed = "load: " + r2.Load.Class + ": " + r2.Load.Msg
 		}
-		r3, err3 := c19RunWorker(dir, &c19Req{Mode: "loadforms", File: "snap1.lisp"})
+		r3, err3 := c19RunWorkerLimit(dir, &c19Req{Mode: "loadforms", File: "snap1.lisp"}, limit)
+		if err3 != nil || r3.Died {
+			// the attribution is part of the signature: without it the session has to be run again
+			res.Flaky = "no reply from the worker that attributes the failed load"
+			if err3 != nil {
+				res.Flaky += ": " + err3.Error()
+			}
+		}
 		if err3 == nil {
 			for i, o := range r3.Forms {
 				if !o.Ok {
@@ -1004,6 +1060,9 @@ func c19RunSessions(c *lib.Ctx) {
 	// baseline gate: when the snapshot of an EMPTY session cannot be reloaded every other session
 	// fails for that same reason; report the one cause only
 	base0 := c19RunSession(filepath.Join(c.OutDir, "sessions-baseline"), &sessions[0])
+	if base0.Flaky != "" {
+		base0 = c19RunSessionAlone(filepath.Join(c.OutDir, "sessions-baseline"), &sessions[0])
+	}
 	if base0.Invalid == "" && base0.Aspect != "" {
 		c.Ev.Case("s:empty", false)
 		c.Ev.Coverage["session_baseline_broken"] = base0.Aspect + ": " + base0.Observed
@@ -1025,6 +1084,15 @@ func c19RunSessions(c *lib.Ctx) {
 		}(i)
 	}
 	wg.Wait()
+	// sessions whose workers gave no usable reply (limit hit on a loaded machine, fork failed, killed):
+	// again, one at a time, with the generous limit; only that run counts
+	for i := range results {
+		if results[i].Flaky != "" {
+			c.Ev.Count("sessions_rerun_alone", 1)
+			fmt.Fprintf(os.Stderr, "c19: session %d run again alone: %s\n", i, c19OneLine(results[i].Flaky))
+			results[i] = c19RunSessionAlone(filepath.Join(base, fmt.Sprintf("s%04d", i)), &sessions[i])
+		}
+	}
 	// the order of the flavors and of the packages in each snapshot, judged by the model: `lf close`
 	// flattens the session's direct components as slip does, `lf loads` defines them in the observed
 	// order (loadFlavors: a definition needs its components defined), `lf order` is the model's order
@@ -1187,7 +1255,7 @@ func c19ReplaySession(c *lib.Ctx, rec map[string]any) {
 	}
 	fmt.Printf("replay session\n  %s\n", strings.Join(sess.forms(), "\n  "))
 	for i := 0; i < reps; i++ {
-		res := c19RunSession(dir, sess)
+		res := c19RunSessionAlone(dir, sess)
 		if res.Invalid != "" {
 			fmt.Println("  the session does not evaluate:", res.Invalid)
 			return
